@@ -26,6 +26,7 @@ type tcase struct {
 	Pos  []pos    `json:"pos"`
 }
 type mismatch struct {
+	N      int    `json:"n"`
 	Class  string `json:"class"`
 	Text   string `json:"text"`
 	Detail string `json:"detail"`
@@ -63,7 +64,7 @@ func main() {
 			os.Exit(2)
 		}
 		report := func(class, detail string) {
-			_ = enc.Encode(mismatch{Class: class, Text: text, Detail: detail})
+			_ = enc.Encode(mismatch{N: n - 1, Class: class, Text: text, Detail: detail})
 		}
 		func() {
 			defer func() {
